@@ -200,7 +200,9 @@ class Expression(Node):
             lineno_offset=escapes_lineno_offset,
             **self.exception_kwargs,
         )
-        self.code = ast.PythonCode(text, **self.exception_kwargs)
+        self.code = ast.PythonCode(
+            text, mode="eval", **self.exception_kwargs
+        )
 
     def declared_identifiers(self):
         return []
@@ -330,7 +332,9 @@ class Tag(Node, metaclass=_TagMeta):
                     m = re.compile(r"^\${(.+?)}$", re.S).match(x)
                     if m:
                         code = ast.PythonCode(
-                            m.group(1).rstrip(), **self.exception_kwargs
+                            m.group(1).rstrip(),
+                            mode="eval",
+                            **self.exception_kwargs,
                         )
                         # we aren't discarding "declared_identifiers" here,
                         # which we do so that list comprehension-declared
@@ -581,7 +585,9 @@ class CallTag(Tag):
             keyword, attributes, ("args"), ("expr",), ("expr",), **kwargs
         )
         self.expression = attributes["expr"]
-        self.code = ast.PythonCode(self.expression, **self.exception_kwargs)
+        self.code = ast.PythonCode(
+            self.expression, mode="eval", **self.exception_kwargs
+        )
         self.body_decl = ast.FunctionArgs(
             attributes.get("args", ""), **self.exception_kwargs
         )
